@@ -13,7 +13,7 @@ func init() {
 		Assume: []string{"names the mux itself rewrites (empty, '.'/'..' segments, '//') are not sent; file-store worlds also exclude names that are a directory prefix of another name", "contentType is compared only when one was sent", "uploads go to existing buckets only"},
 		Run:    runC02,
 	})
-	expectedProbes["C02"] = []string{"c02.three_forms", "c02.bad_md5_rejected", "c02.overwrite", "c02.delete", "c02.resumable_multi_chunk", "c02.finished_by_status_query", "c02.resend_overlapping_range", "c02.folder_name_request", "c02.gzip_body", "c02.big_payload", "gcs.restart"}
+	expectedProbes["C02"] = []string{"c02.three_forms", "c02.bad_md5_rejected", "c02.overwrite", "c02.delete", "c02.resumable_multi_chunk", "c02.finished_by_status_query", "c02.resend_overlapping_range", "c02.folder_name_request", "c02.refinalise_after_rejection", "c02.gzip_body", "c02.big_payload", "gcs.restart"}
 }
 
 func runC02(r *Run) {
